@@ -382,6 +382,19 @@ def rule_filter(chk):
             and any(t_.kind == "ext" and t_.ref == "json.dumps" for t_ in ctx.cg.typer.resolve_call(f, a.left))
         if not okw:
             problems.append("what is written is %s, not dumps(result)+newline" % (a is not None and unparse(a)[:50]))
+            continue
+        # options that make dumps / the write partial for values json.loads can produce
+        for k in a.left.keywords:
+            okv, v = ctx.try_fold(f, k.value) if k.arg is not None else (False, None)
+            if k.arg == "ensure_ascii" and okv and not v:
+                problems.append("dumps(..., ensure_ascii=False): the text written is no longer pure ASCII, so whether a line can be written depends on the output stream's encoding; "
+                                "a lone surrogate (which json.loads accepts) cannot be encoded by any of them and aborts the run at that line")
+            elif k.arg == "allow_nan" and okv and not v:
+                problems.append("dumps(..., allow_nan=False) raises ValueError for NaN / Infinity, which json.loads accepts: the run aborts at that line")
+            elif k.arg in ("cls", "default", "separators", "sort_keys", "ensure_ascii", "allow_nan", "check_circular"):
+                continue
+            else:
+                raise AnalysisError("EliotFilter.run: dumps option %s is not modelled" % (k.arg or "**"))
     chk.req(not problems, "C20.filter", "EliotFilter.run:one-output-line-per-non-skipped-input-line", chk.where(f), good="loads -> evaluate -> write(dumps(result)+'\\n') unless result is SKIP", fail="; ".join(problems), sites=len(region))
     # the SKIP object bound for the expression is the one compared with; J is the decoded message
     okb = False
